@@ -544,3 +544,9 @@ def run(ctx, rep):
     clause_length_before_decode(prog, rep)
     clause_validate_then_apply(prog, rep)
     clause_failure_writes(prog, rep)
+    # the same for invitations: once process_welcome has written, only a storage error may still make it fail (shared with C16)
+    import os, sys
+    sys.path.insert(0, os.path.dirname(os.path.abspath(__file__)))
+    import c16
+    for pw in prog.find(adt="MDK", name="process_welcome", crate="mdk_core"):
+        c16.clause_no_refusal_after_write(prog, rep, pw, rule="refused-event-writes")
